@@ -120,39 +120,45 @@ func checkCopyRR(c recCase) error {
 			}
 		}
 	}
+	return copyChecks(rr, typeName(c.R.Type))
+}
+
+// copyChecks: Copy(rr) equals rr, shares no mutable memory with it (spare capacity included), and
+// no write through one of the two shows through the other. rr is used up.
+func copyChecks(rr dns.RR, tn string) error {
 	// an emptied or pre-allocated slice (length 0, capacity > 0) must not be shared either: a later
 	// append on one side would write into the other
 	roomy(rr)
 	cp := dns.Copy(rr)
 	if snap(cp) != snap(rr) {
-		return pbt.Errf("Copy(%s) differs from the original: %s", typeName(c.R.Type), diffAt(snap(cp), snap(rr)))
+		return pbt.Errf("Copy(%s) differs from the original: %s", tn, diffAt(snap(cp), snap(rr)))
 	}
 	if o := aliascheck.Overlap(rr, cp); o != "" {
-		return pbt.Errf("Copy(%s): %s", typeName(c.R.Type), o)
+		return pbt.Errf("Copy(%s): %s", tn, o)
 	}
 	// behavioural twin: scribbling over one is invisible through the other
 	before := snap(rr)
 	aliascheck.Scribble(cp)
 	if after := snap(rr); after != before {
-		return pbt.Errf("writing through the copy of a %s changed the original: %s", typeName(c.R.Type), diffAt(after, before))
+		return pbt.Errf("writing through the copy of a %s changed the original: %s", tn, diffAt(after, before))
 	}
 	cp2 := dns.Copy(rr)
 	before = snap(cp2)
 	aliascheck.Scribble(rr)
 	if after := snap(cp2); after != before {
-		return pbt.Errf("writing through the original %s changed its copy: %s", typeName(c.R.Type), diffAt(after, before))
+		return pbt.Errf("writing through the original %s changed its copy: %s", tn, diffAt(after, before))
 	}
 	// appends within capacity are writes too
 	cp3 := dns.Copy(rr)
 	before = snap(cp3)
 	n := growInto(rr)
 	if after := snap(cp3); after != before {
-		return pbt.Errf("writing into the spare capacity of the slices of a %s (an append) changed its copy: %s", typeName(c.R.Type), diffAt(after, before))
+		return pbt.Errf("writing into the spare capacity of the slices of a %s (an append) changed its copy: %s", tn, diffAt(after, before))
 	}
 	before = snap(rr)
 	n += growInto(cp3)
 	if after := snap(rr); after != before {
-		return pbt.Errf("writing into the spare capacity of the slices of the copy of a %s (an append) changed the original: %s", typeName(c.R.Type), diffAt(after, before))
+		return pbt.Errf("writing into the spare capacity of the slices of the copy of a %s (an append) changed the original: %s", tn, diffAt(after, before))
 	}
 	if n > 0 {
 		pbt.Class("spare-capacity-written")
@@ -310,6 +316,9 @@ type msgCase struct {
 	// literals holds (0: no) - redundant length fields, option codes, header type / class left at
 	// zero or stale; see handBuilt for the meaning of the bits
 	Hand uint32 `json:",omitempty"`
+	// copy-message: the message is also copied onto itself, m.CopyTo(m) - the source of a copy is to
+	// come out unchanged whatever the destination is, and a copy of m laid over m is m
+	Self bool `json:",omitempty"`
 }
 
 // slot addresses one element of one record section.
@@ -407,6 +416,35 @@ func genMsg(t *rapid.T) msgCase {
 	return c
 }
 
+// knownCopyToSelf: m.CopyTo(m) empties the record sections of m (see the probe in init).
+const knownCopyToSelf = "copyto-self-empties-message"
+
+// genCopyMsg: genMsg, and one message in four is copied onto itself as well.
+func genCopyMsg(t *rapid.T) msgCase {
+	c := genMsg(t)
+	if rapid.IntRange(0, 3).Draw(t, "self") == 0 {
+		if pbt.Known(knownCopyToSelf) {
+			pbt.Excluded(knownCopyToSelf)
+		} else {
+			c.Self = true
+		}
+	}
+	return c
+}
+
+// selfCopy: after m.CopyTo(m) the message reads as before. (That the records it then holds are
+// fresh copies or the old values is left open: m is source and destination at once.)
+func selfCopy(m *dns.Msg) error {
+	before := snap(m)
+	an, ns, ex := len(m.Answer), len(m.Ns), len(m.Extra)
+	m.CopyTo(m)
+	if after := snap(m); after != before {
+		return pbt.Errf("m.CopyTo(m) changed the message it copied (%d+%d+%d records before, %d+%d+%d after): %s",
+			an, ns, ex, len(m.Answer), len(m.Ns), len(m.Extra), diffAt(after, before))
+	}
+	return nil
+}
+
 func msgKey(m wm.Msg) []byte {
 	w, _ := wm.Encode(m)
 	return w
@@ -483,6 +521,18 @@ func checkCopyMsg(c msgCase) error {
 			if after := snap(third); after != thirdBefore {
 				return pbt.Errf("writing through a copy made by CopyTo changed the message the destination had borrowed its slices from: %s", diffAt(after, thirdBefore))
 			}
+		}
+	}
+	// the message laid over itself. (A bare header is left out: what Copy makes of one is another matter,
+	// counted above.)
+	if c.Self && !bare {
+		lib, _ = wm.MsgToLib(c.M, true)
+		pbt.Class("copied-onto-itself")
+		if n := len(lib.Answer) + len(lib.Ns) + len(lib.Extra); n > 0 {
+			pbt.Class("copied-onto-itself:with-records")
+		}
+		if err := selfCopy(lib); err != nil {
+			return err
 		}
 	}
 	return nil
@@ -799,6 +849,11 @@ func signVerifyReadOnly(sig *dns.RRSIG, key *dns.DNSKEY, priv crypto.Signer, sig
 	if serr != nil {
 		return "not-signable", nil // (e.g. a record the packer refuses); nothing more to observe
 	}
+	if len(signSet) > 0 && len(set) > 0 && &signSet[0] != &set[0] {
+		// the RRSIG travels with the set it is checked against: in an answer made from a wildcard it
+		// carries the expanded owner name (and a label count that says so)
+		sig.Hdr.Name = set[0].Header().Name
+	}
 	sbefore := snap(sig)
 	err = sig.Verify(key, set)
 	if after := snap(set); after != before {
@@ -877,10 +932,17 @@ func genSign(t *rapid.T) signCase {
 }
 
 func init() {
+	pbt.Probe(knownCopyToSelf, func() error {
+		m := new(dns.Msg)
+		m.SetQuestion("example.", dns.TypeA)
+		m.Response = true
+		m.Answer = []dns.RR{&dns.A{Hdr: dns.RR_Header{Name: "example.", Rrtype: dns.TypeA, Class: dns.ClassINET, Ttl: 60}, A: net.IP{192, 0, 2, 1}}}
+		return selfCopy(m)
+	})
 	pbt.Register(pbt.Sub[recCase]{Name: "copy-record", Weight: 20, Gen: genRec, Check: checkCopyRR})
 	pbt.RegisterEnum(pbt.Enum[recCase]{Name: "copy-every-option-kind", Exhaustive: true, Each: eachOptionKind, Check: checkCopyRR})
-	pbt.Register(pbt.Sub[msgCase]{Name: "copy-message", Weight: 4, Gen: genMsg, Check: checkCopyMsg})
+	pbt.Register(pbt.Sub[msgCase]{Name: "copy-message", Weight: 4, Gen: genCopyMsg, Check: checkCopyMsg})
 	pbt.Register(pbt.Sub[msgCase]{Name: "unpack-aliases-no-buffer", Weight: 6, Gen: genMsg, Check: checkUnpack})
 	pbt.Register(pbt.Sub[msgCase]{Name: "read-only-operations", Weight: 4, Gen: genMsg, Check: checkReadOnly})
-	pbt.Register(pbt.Sub[signCase]{Name: "sign-verify-read-only", Weight: 6, Gen: genSign, Check: checkSign})
+	pbt.Register(pbt.Sub[signCase]{Name: "sign-verify-read-only", Weight: 4, Gen: genSign, Check: checkSign})
 }
